@@ -1,20 +1,26 @@
 // Shim of portable_atomic (ASSUMED model, R2): atomics are plain cells, sequential semantics
 // only; fetch_add / fetch_sub wrap like the hardware instruction and never panic.
 pub enum AOrd { Relaxed, Acquire, Release, SeqCst, AcqRel }
-pub struct AtomicU64 { pub v: u64 }
+// A 64-bit atomic cell.  Besides its value the model counts, as ghost state, the read-modify-write operations and the
+// plain stores performed on it: "inc / dec are ONE atomic read-modify-write" is the code-level condition under which
+// concurrent updates cannot be lost (the schedules themselves are outside the model).
+pub struct AtomicU64 { pub v: u64, pub rmws: Ghost<nat>, pub stores: Ghost<nat> }
 pub struct AtomicU8 { pub v: u8 }
 impl AtomicU64 {
     pub open spec fn view(&self) -> u64 { self.v }
-    pub fn new(v: u64) -> (r: Self) ensures r@ == v { AtomicU64 { v } }
+    pub fn new(v: u64) -> (r: Self) ensures r@ == v, r.rmws@ == 0, r.stores@ == 0 { AtomicU64 { v, rmws: Ghost(0), stores: Ghost(0) } }
     pub fn load(&self, o: AOrd) -> (r: u64) ensures r == self@ { self.v }
-    pub fn store(&mut self, v: u64, o: AOrd) ensures final(self)@ == v { self.v = v; }
+    #[verifier::external_body]
+    pub fn store(&mut self, v: u64, o: AOrd) ensures final(self)@ == v, final(self).rmws == old(self).rmws, final(self).stores@ == old(self).stores@ + 1 { self.v = v; }
     #[verifier::external_body]
     pub fn fetch_add(&mut self, d: u64, o: AOrd) -> (r: u64)
-        ensures r == old(self)@, final(self)@ as nat == (old(self)@ as nat + d as nat) % 0x1_0000_0000_0000_0000
+        ensures r == old(self)@, final(self)@ as nat == (old(self)@ as nat + d as nat) % 0x1_0000_0000_0000_0000,
+                final(self).rmws@ == old(self).rmws@ + 1, final(self).stores == old(self).stores
     { unimplemented!() }
     #[verifier::external_body]
     pub fn fetch_sub(&mut self, d: u64, o: AOrd) -> (r: u64)
-        ensures r == old(self)@, final(self)@ as int == (old(self)@ as int - d as int) % 0x1_0000_0000_0000_0000
+        ensures r == old(self)@, final(self)@ as int == (old(self)@ as int - d as int) % 0x1_0000_0000_0000_0000,
+                final(self).rmws@ == old(self).rmws@ + 1, final(self).stores == old(self).stores
     { unimplemented!() }
 }
 impl AtomicU8 {
